@@ -112,6 +112,15 @@ def run(ctx):
     ctx.formula('FORMULA', 'get_index is the unclamped rounded channel offset round((f - fmin)/df): the helper\'s exclusive stop index '
                 'survives the round trip through frequencies', gi, rgi.ret,
                 ctx.spec(gi, 'np.round((frequency - self.fmin) / self.df).astype(int)'), node=gi.node, construct='return get_index')
+    # the smeared path and the helper's bounding box are computed from the SAME time axis: the extended axis the general
+    # injection evaluates a smeared path on is derived from the frame's current `ts` on every access (a stored copy would go
+    # stale when the axis is replaced, e.g. by the cadence's temporary shift -- the box would then follow `ts`, the path not)
+    te = ctx.func(FR + 'ts_ext')
+    rte, _I = ctx.run(te, expand=False)
+    ctx.formula('FORMULA', 'the extended time axis of a smeared injection is the current axis plus one step: '
+                'ts_ext == append(ts, ts[-1] + dt), recomputed from ts', te, rte.ret,
+                ctx.spec(te, 'np.append(self.ts, self.ts[-1] + self.dt)', I=ctx.interp(expand=False)), node=te.node,
+                construct='return ts_ext')
     # RANGE: at every call site of Frame.add_signal in the package the sub-step count is provably >= 1
     ctx.clause = 'D2'
     sites = 0
